@@ -19,3 +19,18 @@ Definition render_same (a b : option (list elem)) : bool :=
   end.
 Definition cases_render (qs : list (option (list elem) * option (list elem))) : list bool :=
   map (fun q => render_same (fst q) (snd q)) qs.
+
+(* the cached path must not raise where the uncached path returns a snapshot (the converse is not claimed: the clones
+   drop more before Ruby.push_children looks) *)
+Definition raise_same (a b : option (list elem)) : bool := match a, b with None, Some _ => false | _, _ => true end.
+Definition cases_raise (qs : list (option (list elem) * option (list elem))) : list bool :=
+  map (fun q => raise_same (fst q) (snd q)) qs.
+(* per document: is it inside the hypotheses of the C14 theorems (well formed; the recorded trigger does not fire) *)
+From TT Require Import Model.CloneTrigger Spec.DocWf Model.IsdCache.
+Definition c14_flags (d : doc) : list bool := [doc_wf d; negb (clone_empties_doc d)].
+(* the explicit-cache transcription on a history of query times: one SignificantTimes object, all answers *)
+Definition history_close (d : doc) (qs : list (Q * option (list elem))) : list bool :=
+  match cached_docs d with
+  | Ok ds => map (fun x => outcome_close (fst x) (snd (snd x))) (combine (fst (run_history (map fst qs) (built_state ds))) qs)
+  | Err _ => map (fun _ => false) qs
+  end.
